@@ -335,6 +335,8 @@ static void run_sweep(vh_ctx *c)
   vh_desc(c, "slicing sweep: rows=%zu threads=%zu vars=%zu dataset=%ld", rows, t, p, ds);
   g_threads = 0; g_full = ds < full_sets(c->tier); g_rot = (int)((pair + ds) & 3);
   sweep_mt_products(c, rows, t);
+  /* the kernels with an explicit thread argument must not depend on how many processors the machine reports (H1): 1, 2, 3, 5 or the real count */
+  { static const size_t NP[] = { 1, 2, 3, 5, 0 }; libsci_verif_nprocs = NP[(pair + ds) % 5]; vh_hist("sweep_reported_processors", (long)libsci_verif_nprocs); }
   sweep_distance(c, x, t);
   sweep_condensed(c, x, t);
   sweep_labels(c, x, t);
@@ -343,6 +345,7 @@ static void run_sweep(vh_ctx *c)
     sweep_selections(c, x, t, ds);
     vh_obs("sweep_pairs_all_families", 1);
   } else vh_obs("sweep_pairs_rows0_kernels_only", 1);
+  libsci_verif_nprocs = 1;
   vh_obs("sweep_pairs", 1);
   vh_obs("library_threads_started_sweep", (double)g_threads);
   vh_hist("sweep_rows", (long)rows); vh_hist("sweep_threads", (long)t);
@@ -409,6 +412,10 @@ static void run_value(vh_ctx *c)
   for (i = 0; i < n; i++) for (j = 0; j < p; j++) x->data[i][j] = off + sc * vh_gauss(c);
   for (i = 0; i < q; i++) for (j = 0; j < p; j++) y->data[i][j] = off + sc * vh_gauss(c);
   if (n >= 3 && vh_coin(c, 0.15)) for (j = 0; j < p; j++) x->data[n - 1][j] = x->data[0][j];     /* a duplicated object: zero distance off the diagonal */
+  /* second build session: data regimes in which an algebraically equivalent formula (|a|^2 + |b|^2 - 2ab) cancels while the definition
+     does not: a common offset far larger than the spread, and nearly duplicated objects */
+  if (vh_coin(c, 0.15)) { double big = sc * vh_logunif(c, 3, 5); for (i = 0; i < n; i++) for (j = 0; j < p; j++) x->data[i][j] += big; for (i = 0; i < q; i++) for (j = 0; j < p; j++) y->data[i][j] += big; vh_obs("value_cases_with_large_common_offset", 1); }
+  if (n >= 4 && vh_coin(c, 0.15)) { for (j = 0; j < p; j++) x->data[n - 2][j] = x->data[1][j] * (1.0 + 1e-8 * vh_gauss(c)); vh_obs("value_cases_with_near_duplicate_objects", 1); }
   lx = ldm_of_matrix(x); ly = ldm_of_matrix(y);
   vh_class(c, "value-n%s-q%s-p%s-t%s", n <= 4 ? "1-4" : n <= 20 ? "5-20" : "21-60", q == 1 ? "1" : q <= 20 ? "2-20" : "21-60", p == 1 ? "1" : p <= 4 ? "2-4" : "5-10",
            t1 == 1 ? "1" : t1 > n ? ">n" : "2-8");
